@@ -36,16 +36,27 @@ def determinism(props, tier, seed, runs):
     bad = 0
     for prop in props:
         a = _digests_subprocess(prop, tier, seed, runs, 16, 0)
-        b = _digests_subprocess(prop, tier, seed, runs, 5, 12345)
+        b = _digests_subprocess(prop, tier, seed, runs, 5, 0)
         diff = [k for k in a['d'] if a['d'][k] != b['d'].get(k)]
         missing = set(a['d']) ^ set(b['d'])
         print(f'determinism {prop}: {len(a["d"])} seeds x 2 fresh interpreters '
-              f'(PYTHONHASHSEED 0/12345, 16/5 workers): '
+              f'(16 / 5 workers, PYTHONHASHSEED=0 as fixed by bin/vcheck): '
               f'{len(diff)} digests differ, {len(missing)} missing, '
-              f'harness errors {a["he"]}/{b["he"]}')
+              f'harness errors {a["he"]}/{b["he"]}, violations {a["v"]}/{b["v"]}')
         for k in diff[:10]:
             print('  DIFF run_seed', k, a['d'][k], b['d'].get(k))
         bad += len(diff) + len(missing) + a['he'] + b['he']
+        # informational: another hash seed.  numpy.einsum(optimize=...) builds
+        # its contraction order from Python sets, so the last bits of some
+        # results (and with them the digests) depend on PYTHONHASHSEED; the
+        # verdicts must not.
+        c = _digests_subprocess(prop, tier, seed, runs, 16, 12345)
+        diff_c = [k for k in a['d'] if a['d'][k] != c['d'].get(k)]
+        print(f'  hash-seed sensitivity (PYTHONHASHSEED=12345): {len(diff_c)} of '
+              f'{len(a["d"])} digests differ (expected: a few, from '
+              f'numpy.einsum path ordering); violations {c["v"]}, '
+              f'harness errors {c["he"]}')
+        bad += c['he'] + abs(c['v'] - a['v'])
     return 1 if bad else 0
 
 
